@@ -2,10 +2,13 @@ package main
 
 import (
 	"fmt"
+	"path/filepath"
 	"sort"
 	"strings"
 
 	"github.com/MichaelMure/git-bug/cache"
+	_select "github.com/MichaelMure/git-bug/commands/select"
+	"github.com/MichaelMure/git-bug/entities/bug"
 	"github.com/MichaelMure/git-bug/entity"
 )
 
@@ -256,6 +259,117 @@ func c13Resolve(c *runCtx) {
 		}
 		emitQ("comment", bugIds, qs, outs, fails)
 		c.nontrivial(fmt.Sprintf("pop-comment|%v", bugs))
+		// --- the command-line front (commands/select.Resolve): first argument as a prefix, with
+		// nothing selected, another bug selected, or a selection that names no existing bug
+		{
+			type sq struct {
+				Selected string   `json:"selected"`
+				Args     []string `json:"args"`
+			}
+			var sqs []sq
+			var souts []any
+			var sfails []string
+			selFile := filepath.Join("select", bug.Namespace)
+			for k := 0; k < c.pick(80, 300); k++ {
+				id := bugIds[c.rng.intn(len(bugIds))]
+				pre := id[:pickOne(c.rng, []int{0, 1, 1, 2, 2, 3, 3, 4, 7, 64})]
+				switch c.rng.intn(8) {
+				case 0:
+					if len(pre) > 0 { // near miss
+						pre = pre[:len(pre)-1] + string(hexd[c.rng.intn(16)])
+					}
+				case 1:
+					pre = pickOne(c.rng, []string{"label", "bad", "feed", "c0de", "a title", "-1"})
+				}
+				var args []string
+				switch c.rng.intn(6) {
+				case 0:
+				case 1:
+					args = []string{pre}
+				default:
+					args = []string{pre, "more", "arguments"}[:2+c.rng.intn(2)]
+				}
+				selected := ""
+				switch c.rng.intn(4) {
+				case 0:
+					_select.Clear(rc, bug.Namespace)
+				case 1:
+					selected = randHexId(c.rng, 64)
+				default:
+					selected = bugIds[c.rng.intn(len(bugIds))]
+				}
+				if selected != "" {
+					if err := _select.Select(rc, bug.Namespace, entity.Id(selected)); err != nil {
+						panic(err)
+					}
+				}
+				got, rest, err := _select.Resolve[*cache.BugCache](rc, bug.Typename, bug.Namespace, rc.Bugs(), args)
+				var want []string
+				if len(args) > 0 {
+					for _, bid := range bugIds {
+						if strings.HasPrefix(bid, args[0]) {
+							want = append(want, bid)
+						}
+					}
+				}
+				selExists := false
+				for _, bid := range bugIds {
+					selExists = selExists || bid == selected
+				}
+				cls, ms := classify(err)
+				var out any
+				switch {
+				case err == nil:
+					if rest == nil {
+						rest = []string{}
+					}
+					out = map[string]any{"entity": string(got.Id()), "rest": rest}
+				case cls == "multiple":
+					out = map[string]any{"multiple": ms}
+				case _select.IsErrNoValidId(err):
+					_, stErr := rc.LocalStorage().Stat(selFile)
+					out = map[string]any{"noValidId": selected != "" && stErr != nil}
+				default:
+					out = map[string]any{"error": err.Error()}
+				}
+				desc := fmt.Sprintf("arguments %q with selection %q", args, selected)
+				switch {
+				case len(want) == 1:
+					c.count("select:unique-prefix")
+					if err != nil || string(got.Id()) != want[0] || strings.Join(rest, "\x00") != strings.Join(args[1:], "\x00") {
+						sfails = append(sfails, fmt.Sprintf("%s: the first argument matches exactly %s but the answer is %v", desc, want[0], out))
+					}
+				case len(want) > 1:
+					c.count("select:ambiguous-prefix")
+					if selected != "" {
+						c.count("select:ambiguous-prefix-with-selection")
+					}
+					if cls != "multiple" || strings.Join(ms, ",") != strings.Join(want, ",") {
+						sfails = append(sfails, fmt.Sprintf("%s: the first argument matches %d ids but the answer is %v, not the multiple-match error listing them", desc, len(want), out))
+					}
+				case selExists:
+					c.count("select:falls-back-to-selection")
+					if err != nil || string(got.Id()) != selected || strings.Join(rest, "\x00") != strings.Join(args, "\x00") {
+						sfails = append(sfails, fmt.Sprintf("%s: nothing matches, so the selected bug and all arguments are expected, but the answer is %v", desc, out))
+					}
+				default:
+					c.count("select:no-valid-id")
+					if !_select.IsErrNoValidId(err) {
+						sfails = append(sfails, fmt.Sprintf("%s: nothing matches and nothing valid is selected, but the answer is %v", desc, out))
+					}
+				}
+				if args == nil {
+					args = []string{}
+				}
+				sqs = append(sqs, sq{selected, args})
+				souts = append(souts, out)
+			}
+			_select.Clear(rc, bug.Namespace)
+			cid := c.emit(map[string]any{"cmd": "select", "ids": bugIds, "q": sqs}, souts)
+			for _, f := range sfails {
+				c.violation(cid, "C13/select", f, nil)
+			}
+		}
 		// everything is committed before the cache is closed (staged operations do not survive a close)
 		for _, id := range bugIds {
 			if b, err := rc.Bugs().Resolve(entity.Id(id)); err == nil {
